@@ -36,6 +36,8 @@ def run(ctx):
               label="negative self-test: one shared default scale breaks isolation after Construct;Construct;Export")
     ctx.model("Timelines", "NegTimelines_shareddir.cfg", workers=2, expect_violation="Isolation",
               label="negative self-test: reading the direction back from the shared default engine-option dict breaks isolation")
+    ctx.model("Timelines", "MCTimelines_unbounded.cfg", workers=4, heap="4g",
+              label="construct/export histories of EVERY length over 3 timelines x 6 configurations (finite graph: a fresh scale object is named after the instance that holds it, the history variable is dropped from the view): Isolation, Idempotent")
     ctx.model("Timelines", "NegTimelines_refit.cfg", workers=2, expect_violation="Isolation",
               label="negative self-test: fitting the axis again at every export changes the document of a nice-sensitive configuration")
     maxlen = 4 if quick else 5
